@@ -198,6 +198,9 @@ class Calls:
                         decl = [t]
                         break
                 else:
+                    if fr.in_spec or self.path.temps:
+                        # undefined sub-term of a guarded spec expression: its value is irrelevant
+                        return VOpaque("undefined." + name)
                     raise PathEnd("no class declares attribute")
         if decl:
             dc, ann = decl[0]
